@@ -14,6 +14,9 @@ def check(run):
                      "each complete behaviour replayed through the real tokenizer; non-trivial = at least two tokens or a lexical error" % n)
     run.rules.append("leg T: random UTF-8 inputs (biased to the classes the tokenizer distinguishes) tokenized by the real code and validated by TLC against the Lexer machine")
     lexfam.model_and_replay(run, configs, "C10")
+    run.rules.append("registration histories: +++ (prefix), --- (postfix), hi (infix) registered in each of the 6 orders in one process, every input <= %d characters of the alphabet "
+                     "tokenized before the first and after each registration, expected tokens from the Lexer machine under exactly the operators registered so far" % (4 if thorough else 3))
+    lexfam.histories(run, 4 if thorough else 3, "C10")
     lexfam.trace_validate(run, 10000 if thorough else 1500, 200 if thorough else 120, run.seed, "OpsBuiltin", "C10")
     lexfam.trace_validate(run, 4000 if thorough else 500, 120, run.seed + 1, "OpsExtended", "C10")
     run.exhaustive = False
